@@ -154,7 +154,7 @@ pub fn conclude(cfg: &CheckCfg, mut agg: Agg, scratch: &Path, started: Instant) 
     if !unknown.is_empty() {
         let dir = format!("{}/replays", crate::verif_dir());
         let _ = std::fs::create_dir_all(&dir);
-        let mut ctx = RunCtx::new(scratch.join("shrink"));
+        let mut ctx = RunCtx::new(scratch.join("shr"));
         ctx.manifest = prop == "C13";
         for (k, rec) in unknown.iter().enumerate() {
             let (minimal, runs) = if k < 12 {
@@ -199,7 +199,7 @@ pub fn conclude(cfg: &CheckCfg, mut agg: Agg, scratch: &Path, started: Instant) 
             violations_json.push(json!({"class": rec.class, "runs": rec.count, "detail": detail, "replay": file}));
         }
     }
-    crate::tree::remove_all(&scratch.join("shrink"));
+    crate::tree::remove_all(&scratch.join("shr"));
 
     let wall = started.elapsed().as_secs_f64();
     // reach probes stuck at zero are a defect of the workload
